@@ -471,7 +471,10 @@ func (a *App) Run(w Widget) error {
 			win := a.vx.Window()
 			win.Clear()
 			a.vx.HideCursor()
-			s.render(win, a.fh.focused)
+			// Children are clipped to their parent; for the root
+			// surface that is its own size, not the whole screen
+			root := win.New(0, 0, int(s.Size.Width), int(s.Size.Height))
+			s.render(root, a.fh.focused)
 
 			switch a.refresh {
 			case true:
